@@ -43,6 +43,8 @@ type Prop struct {
 	ID   string
 	Pkgs []string // packages loaded for the quick tier
 	Run  func(c *Ctx)
+	// Thorough holds the module-wide extensions of the rules (whole module loaded).
+	Thorough func(c *Ctx)
 }
 
 var registry = map[string]*Prop{}
@@ -84,6 +86,14 @@ func Run(id, tier string, seed int) (exit int, err error) {
 		}()
 		core.SelfTest(rep)
 		p.Run(c)
+		if tier == "thorough" {
+			if p.Thorough != nil {
+				p.Thorough(c)
+			}
+			if os_Getenv("VERIF_NO_CONTROLS") == "" {
+				runControls(rep, id)
+			}
+		}
 	}()
 	return rep.Finish(), nil
 }
